@@ -29,6 +29,11 @@ type dcase struct {
 	PRetry  int    `json:"p_retry"` // percent of requests answered with FLOOD_WAIT / timeout
 	MaxRej  int    `json:"max_rej"`
 	Seed    uint64 `json:"seed"`
+	// a long run of consecutive retryable answers for the chunk at offset BurstOff: BurstN of them, of kind
+	// BurstKind (0 mixed, 1 net timeout, 2 rpc TIMEOUT, 3 FLOOD_WAIT) -- "any pattern" includes long ones
+	BurstOff  int64 `json:"burst_off"`
+	BurstN    int   `json:"burst_n"`
+	BurstKind int   `json:"burst_kind"`
 }
 
 type ev struct {
@@ -51,6 +56,7 @@ type server struct {
 	rng    *hx.Rand
 	log    []ev
 	rejRun map[int64]int
+	burst  int
 	pos    int64 // stream writer position
 }
 
@@ -65,6 +71,22 @@ func (s *server) UploadGetFile(ctx context.Context, r *tg.UploadGetFileRequest) 
 	s.mu.Lock()
 	defer s.mu.Unlock()
 	rej := false
+	if s.c.BurstN > 0 && r.Offset == s.c.BurstOff && s.burst < s.c.BurstN {
+		s.burst++
+		s.log = append(s.log, ev{Kind: 0, Off: r.Offset, Len: r.Limit, Rejected: true})
+		k := s.c.BurstKind
+		if k == 0 {
+			k = 1 + s.rng.Intn(3)
+		}
+		switch k {
+		case 1:
+			return nil, timeoutErr{}
+		case 2:
+			return nil, tgerr.New(-503, tg.ErrTimeout)
+		default:
+			return nil, tgerr.New(420, fmt.Sprintf("FLOOD_WAIT_%d", 1+s.rng.Intn(20)))
+		}
+	}
 	if s.c.PRetry > 0 && s.rejRun[r.Offset] < s.c.MaxRej && s.rng.Intn(100) < s.c.PRetry {
 		rej = true
 		s.rejRun[r.Offset]++
@@ -339,6 +361,16 @@ func main() {
 			one("boundary", dc)
 		}
 	}
+	// long runs of consecutive retryable answers on one chunk (first, middle, the short last, the empty one)
+	for _, n := range []int{19, 20, 21, 45, 130} {
+		for kind := 0; kind <= 3; kind++ {
+			p := 4 * kib
+			sz := int64(3*p + 17)
+			off := int64(c.Rng.Intn(5)) * int64(p)
+			one("burst", dcase{Stream: true, Size: sz, P: p, Threads: 1, BurstOff: off, BurstN: n, BurstKind: kind, Seed: c.Rng.U64()})
+			one("burst", dcase{Size: sz, P: p, Threads: c.Rng.Range(1, 4), BurstOff: off, BurstN: n, BurstKind: kind, Seed: c.Rng.U64()})
+		}
+	}
 	for i := 0; i < c.N(150, 6000); i++ {
 		p := []int{4 * kib, 8 * kib, 64 * kib}[c.Rng.Intn(3)]
 		sz := int64(c.Rng.Range(0, 20))*int64(p) + int64(c.Rng.Intn(3)-1)*int64(c.Rng.Intn(p))
@@ -364,6 +396,6 @@ func main() {
 		c.Violate("data-race-download", "race detector report during downloads: "+strings.ReplaceAll(s, "\n", " | "), -1, 0, map[string]interface{}{"race_log": s})
 	}
 	c.Obs.Extra = map[string]interface{}{"retry_waits_taken": xfer.Waits.Load()}
-	c.Obs.Rule = "real Builder.Stream / Builder.Parallel of a pattern file from a fake master DC: sizes {0,1,p-1,p,p+1,kp,kp+-1} for p in {4,128,512 KiB}, threads 1..8, FLOOD_WAIT / net timeout / TIMEOUT rpc error injection, plus random sizes; non-trivial = distinct case with more than one part and at least one retried request"
+	c.Obs.Rule = "real Builder.Stream / Builder.Parallel of a pattern file from a fake master DC: sizes {0,1,p-1,p,p+1,kp,kp+-1} for p in {4,128,512 KiB}, threads 1..8, FLOOD_WAIT / net timeout / TIMEOUT rpc error injection incl. runs of 19..130 consecutive retryable answers on one chunk, plus random sizes; non-trivial = distinct case with more than one part and at least one retried request"
 	c.Finish()
 }
